@@ -18,6 +18,9 @@ class CollectionValue(GenericValue):
     def __contains__(self, item):
         if self._old_value is undefined:
             state().missing_values += 1
+        else:
+            # compare first: a comparison which raises must not record the value
+            old_result = item in self._old_value
 
         if self._new_value is undefined:
             self._new_value = [clone(item)]
@@ -28,7 +31,7 @@ class CollectionValue(GenericValue):
         if self._old_value is undefined:
             return True
         else:
-            return self._return(item in self._old_value)
+            return self._return(old_result)
 
     def _new_code(self):
         return self._file._value_to_code(self._new_value)
